@@ -24,8 +24,10 @@ GRAPHS = {
     "neighbour-outside": (["b", "a"], [("a", "x"), ("a", "b")], [], ["x"]),
     "sink-only": (["a", "b"], [("a", "b")], [], []),
     "three-neighbours": (["d", "a", "b", "c"], [("a", "d"), ("a", "c"), ("a", "b")], [], []),
+    "outside+tied-keys": (["a", "c", "b"], [("a", "c"), ("a", "x"), ("a", "b"), ("b", "c"), ("b", "x")], [], ["x"]),
 }
-SORTKEY = {"a": 3, "b": 1, "c": 2, "d": 0, "x": 5}
+SAME_LABEL = {"b": "c"}   # rfunc variant "same-label": b is rendered exactly like c
+SORTKEY = {"a": 3, "b": 1, "c": 1, "d": 0, "x": -1}   # b and c tie (stable order required); the outside vertex sorts first
 
 
 def forward(order, de, ue, v):
@@ -52,11 +54,13 @@ def run(ctx):
                      "vertices, neighbours outside the universe, x rfunc in {None, callback} x sort in {None, key}; derived symbolic result compared with the specified line template")
     res.trusted_base = common.TRUSTED_AE + ["symbolic strings: renderings are opaque atoms, literal text is exact; slicing/stripping into an atom is UNDECIDED"]
     res.assumptions = ["rfunc / sort callbacks are pure", "neighbors() itself is decided by C04 (FORWARD, default unknown handling)"]
+    import sa.ae
+    sa.ae.SYM_ATOMS_INJECTIVE = True   # repr() of distinct objects differ; the rfunc labels of this harness are distinct unless stated
     h = H(ctx.src, ["edgegraph.traversal.helpers", "edgegraph.output.plaintext"])
     fn = h.fn(FN)
     n = 0
     for gname, (order, de, ue, outside) in GRAPHS.items():
-        for use_rfunc, use_sort in itertools.product((False, True), (False, True)):
+        for use_rfunc, use_sort in itertools.product((False, True, "same-label"), (False, True)):
             h.reset()
             V = {v: h.new("Vertex", v) for v in list(order) + list(outside)}
             for p, q in de:
@@ -65,9 +69,10 @@ def run(ctx):
                 h.new("UnDirectedEdge", f"u_{p}{q}", V[p], V[q])
             uni = h.new("Universe", "U", vertices=Seq([V[v] for v in order], "list"))
             h.settle()
-            rfunc = Callback("rfunc", lambda I, k, a, kw: mkstr([SAtom("R", a[0])])) if use_rfunc else None
+            lab = (lambda n: SAME_LABEL[n] if n in SAME_LABEL and SAME_LABEL[n] in V else n) if use_rfunc == "same-label" else (lambda n: n)
+            rfunc = Callback("rfunc", lambda I, k, a, kw: mkstr([SAtom("R", V[lab(a[0].name)])])) if use_rfunc else None
             sort = Callback("sort", lambda I, k, a, kw: SORTKEY[a[0].name]) if use_sort else None
-            R = (lambda v: SAtom("R", V[v])) if use_rfunc else (lambda v: SAtom("Repr", V[v]))
+            R = (lambda v: SAtom("R", V[lab(v)])) if use_rfunc else (lambda v: SAtom("Repr", V[v]))
             try:
                 out = h.call(fn, uni, rfunc, sort)
             except Unknown as u:
@@ -111,7 +116,7 @@ def run(ctx):
                 res.violation("LINE", FN, f"rfunc={use_rfunc},sort={use_sort},zero-neighbour-vertex={zero and 'line for' in why and not forward(order, de, ue, why.split()[2].rstrip(':'))}",
                               f"graph {gname} (universe order {order}, directed {de}, undirected {ue}): {why}", replay=replay(gname, use_rfunc, use_sort))
     res.rule("LINE", n)
-    common.vacuity(res, "LINE", 30)
+    common.vacuity(res, "LINE", 55)
     res.analysed = common.analysed(ctx, [FN])
     res.explanation = ("The derived symbolic output equals the specified template for 0, 1, 2 and 3 neighbours; the accumulation loop treats every neighbour alike "
                        "(same separator, same rendering call), so the template extends to any number.")
@@ -144,5 +149,5 @@ def replay(gname, use_rfunc, use_sort):
     for p, q in ue:
         L.append(f"UnDirectedEdge(V[{p!r}], V[{q!r}])")
     L.append(f"uni = Universe(vertices=[V[n] for n in {list(order)}])")
-    L.append(f"print(repr(plaintext.basic_render(uni, rfunc={'(lambda v: v.name)' if use_rfunc else 'None'}, sort={'(lambda v: ' + repr(SORTKEY) + '[v.name])' if use_sort else 'None'})))")
+    L.append(f"print(repr(plaintext.basic_render(uni, rfunc={'(lambda v: ' + repr(SAME_LABEL) + '.get(v.name, v.name))' if use_rfunc == 'same-label' else ('(lambda v: v.name)' if use_rfunc else 'None')}, sort={'(lambda v: ' + repr(SORTKEY) + '[v.name])' if use_sort else 'None'})))")
     return "\n".join(L)
